@@ -96,7 +96,7 @@ def report_diff(ctx, it, cfg, diff, also=(), seen_keys=None):
         if it.get("key"):
             sp, sc, sd = prog, calls, None      # already minimal
         else:
-            sp, sc, sd = shrink(prog, calls, cfg, diff["what"], budget_s=60 if ctx.tier == "quick" else 180)
+            sp, sc, sd = shrink(prog, calls, cfg, diff["what"], budget_s=40 if ctx.tier == "quick" else 180)
     except Exception as e:  # shrinking is best effort
         ctx.log(f"shrink failed: {type(e).__name__}: {e}")
         sp, sc, sd = prog, calls, None
@@ -195,7 +195,7 @@ def differential(ctx, n_prog, cfgs, salt="gen", features=None):
             d = H.compare(it["prog"], it["calls"], it["model"], o)
             if d is not None:
                 failing.append((cfg, d))
-        if failing and (reported < 3 or it.get("key")):
+        if failing and (reported < 2 or it.get("key")):
             # one report per program (first failing configuration; the others are listed)
             if not it.get("key"):
                 reported += 1
@@ -222,7 +222,7 @@ def run(ctx):
         if "VyCore" in b["file"] or "VyShow" in b["file"] or "VyWf" in b["file"]:
             return
     cfgs = configs(ctx.tier)
-    n = 80 if ctx.tier == "quick" else 300
+    n = 60 if ctx.tier == "quick" else 300
     items, stats = differential(ctx, n, cfgs)
     ctx.corr["generator"] = stats
     ctx.corr["configs"] = [c.name for c in cfgs]
